@@ -20,6 +20,14 @@ def close(a, b, rel=REL_TOL, abs_=1e-7):
     return abs(a - b) <= max(abs_, rel * max(1.0, abs(a), abs(b)))
 
 
+def close_at_scale(a, b, delta, rel=REL_TOL):
+    """`close` for disorders that are proportional to a small delta_empty: compared in units of delta_empty, so that the
+    floor of the tolerance (relative to 1) does not swallow values of the order of 1e-5."""
+    s = float(delta)
+    s = s if 0 < s < 1 else 1.0
+    return close(float(a) / s, float(b) / s, rel=rel)
+
+
 # ------------------------------------------------------------------ arrays and pair costs from the compiled form
 def category_list(cspec, dissim):
     cats = getattr(dissim, "categories", None)
@@ -146,11 +154,22 @@ def min_sum_milp(masks, costs, nunits, cover=False, time_limit=60):
             u += 1
     A = csr_matrix((np.ones(len(rows)), (rows, cols)), shape=(nunits, len(masks)))
     con = LinearConstraint(A, lb=np.ones(nunits), ub=(np.full(nunits, np.inf) if cover else np.ones(nunits)))
-    res = milp(c=np.asarray(costs, dtype=np.float64), constraints=[con], integrality=np.ones(len(masks)),
+    # costs are handed over relative to the largest one (solver tolerances are absolute; delta_empty may be 1e-6)
+    # (relative to the mean cost of a lone unit, which is of the order of delta_empty; a candidate dearer than all lone
+    # units together is never part of an optimum, so the huge costs of far-apart units are clipped: they would otherwise
+    # dwarf the relevant ones)
+    c = np.asarray(costs, dtype=np.float64)
+    m = np.asarray(masks, dtype=np.int64)
+    single = (m & (m - 1)) == 0
+    total_single = float(c[single].sum()) if single.any() else 0.0
+    scale = total_single / max(1, int(single.sum())) if total_single > 0 else 1.0
+    cc = np.minimum(c, 2.0 * total_single) if total_single > 0 else c
+    res = milp(c=cc / scale, constraints=[con], integrality=np.ones(len(masks)),
                bounds=Bounds(0, 1), options={"time_limit": time_limit, "mip_rel_gap": 0.0})   # default gap is 1e-4: not an exact oracle
     if not res.success:
         return None
-    return float(res.fun)
+    x = np.round(res.x)
+    return float(np.dot(c, x))
 
 
 def min_sum_hungarian(mats, sizes):
